@@ -71,6 +71,9 @@ def setup() -> None:
     _setup_done = True
 
 
+DBG = [False]  # jinja2.ext.debug loaded (set per run)
+
+
 def _make_env(P, sandboxed, is_async, ae, lc):
     """sandboxed: False plain, True sandboxed, 2 native environment."""
     import jinja2
@@ -80,8 +83,8 @@ def _make_env(P, sandboxed, is_async, ae, lc):
     cls = NativeEnvironment if sandboxed == 2 else SandboxedEnvironment if sandboxed else jinja2.Environment
     env = cls(
         loader=jinja2.DictLoader(P.templates), enable_async=is_async, autoescape=AE_MODES[ae],
-        extensions=["jinja2.ext.loopcontrols"] if lc else [],
-        bytecode_cache=CodeMemo(("c38", sandboxed, is_async, ae, lc)),
+        extensions=(["jinja2.ext.loopcontrols"] if lc else []) + (["jinja2.ext.debug"] if DBG[0] else []),
+        bytecode_cache=CodeMemo(("c38", sandboxed, is_async, ae, lc, DBG[0])),
     )
     gp = env.globals["gf"] = GlobalProbe()
 
@@ -187,7 +190,10 @@ def run(tape: Tape) -> Outcome:
     ae = tape.draw(3)  # autoescape: off, on, by template name (callable)
     lc = bool(tape.draw(2))
     size = 2 + tape.draw(4)
-    P = Gen(tape, is_async=is_async, probe=True, loopcontrols=lc, size=size, env_globals=True, native=sandboxed == 2).generate()
+    DBG[0] = tape.draw(6, "m") == 4
+    out.count("env_with_debug_extension", 1 if DBG[0] else 0)
+    P = Gen(tape, is_async=is_async, probe=True, loopcontrols=lc, size=size, env_globals=True, native=sandboxed == 2,
+            debug_ext=DBG[0]).generate()
     nr = 3 + tape.draw(4)
     hist = []
     for _ in range(nr):
@@ -274,6 +280,38 @@ def run(tape: Tape) -> Outcome:
                     break
                 if any_fired:
                     clean_after_fault = True
+        if out.sig is None and fired_list and tape.draw(24, "m") == 0:
+            # SOAK: the same faulted render again and again (120 times), then every entry point clean: per-render
+            # leaks too small to show in a short history (a counter, a growing list, a depth guard) add up
+            fi, fk, fexck, _kind = fired_list[0]
+            fentry, fapi, fdseed = hist[fi]
+            soak_bad = None
+            for rep_ in range(120):
+                exc = FAULT_CLASSES[fexck]("injected")
+                ev = PEvents(fault_at=fk, exc=exc)
+                env.globals["gf"].ev = ev
+                data = make_probe_data(fdseed, ev, is_async=is_async, tape=tape)
+                res = _render_once(env, is_async, fentry, fapi, data, tape)
+                if res[0] == "raised":
+                    res[1].with_traceback(None)
+                if ev.fired and not ev.in_capability_test and not (res[0] == "raised" and res[1] is exc):
+                    soak_bad = ("fault-not-propagated-in-soak", type(res[1]).__name__ if res[0] == "raised" else "ok", rep_)
+                    break
+            out.count("soak_histories")
+            if soak_bad is None:
+                for entry in P.entry_points:
+                    ev = PEvents()
+                    env.globals["gf"].ev = ev
+                    data = make_probe_data(fdseed, ev, is_async=is_async, tape=tape)
+                    res = _render_once(env, is_async, entry, 0, data, tape)
+                    got = _key(res)
+                    if res[0] == "raised":
+                        res[1].with_traceback(None)
+                    if got != reference(entry, 0, fdseed):
+                        soak_bad = ("render-differs-after-soak", got[0], reference(entry, 0, fdseed)[0])
+                        break
+            if soak_bad is not None:
+                out.violate(soak_bad[:3] if soak_bad[0].startswith("render") else soak_bad[:2], entry=fentry, repeats=120, detail=str(soak_bad))
         out.count("histories")
         out.count("renders", len(events_per_render))
         out.count("data_events", sum(events_per_render))
